@@ -24,7 +24,7 @@ func C13(c *Ctx) {
 	r.Rule("C13/R1", "start-up constructors write durable keys only when the key is absent; the stores are opened with goleveldb's tolerant recovery options", 5)
 	r.Rule("C13/R2", "offset is saved after the message was handled, as message.Offset+1; LoadOffset feeds GetMessages", 3)
 	r.Rule("C13/R3", "derived work (operation) is durable no later than the state change that makes the message unrepeatable", 1)
-	r.Rule("C13/R4", "post before retire", 2)
+	r.Rule("C13/R4", "post before retire", 3)
 	r.Rule("C13/R5", "tombstones filter the pool; tombstone first", 3)
 	c13Constructors(c)
 	c13Poll(c)
@@ -361,6 +361,26 @@ func c13Retire(c *Ctx) {
 			}
 			r.Check(len(okEdges) > 0 && !ssax.ReachableAvoiding(fn, dels[0], okEdges, nil), "C13/R4", "node.executeOperation:post<retire", "an operation is retired only after its result was posted / written back successfully", c.PosOf(dels[0]),
 				"DeleteOperation is reachable without a successful Send/SaveFSM: a crash or error loses the answer while the operation is gone")
+			// nothing that changes what the operation pool offers is durable BEFORE the answer is on the board: an operation
+			// marked/hidden first and posted second is lost by a kill between the two (at-most-once). The only calls of
+			// the operation service in front of Send are reads.
+			for _, sd := range byName("Send") {
+				var early []string
+				for _, call := range ssax.Calls(fn, false, func(ci ssa.CallInstruction) bool {
+					return strings.Contains(ssax.Path(ci.Common().Value), "opService") || strings.Contains(ssax.FuncID(ssax.CalleeObj(ci)), "services/operation.")
+				}) {
+					o := ssax.CalleeObj(call)
+					if o == nil || strings.HasPrefix(o.Name(), "Get") {
+						continue
+					}
+					if ci := call.(ssa.Instruction); ssax.ReachableFrom(fn, ci, sd.(ssa.Instruction), nil, nil) {
+						early = append(early, o.Name()+" at "+c.PosOf(ci))
+					}
+				}
+				sort.Strings(early)
+				r.Check(len(early) == 0, "C13/R4", "node.executeOperation:pool-unchanged-before-post", "the operation pool is not written before the answer is posted", c.PosOf(sd.(ssa.Instruction)),
+					"operation-service writes in front of Send: "+strings.Join(early, ", ")+" — a kill after that write and before the post leaves an operation that is no longer offered although its answer never reached the board")
+			}
 			for i, e := range effects {
 				eo := ssax.NilErrEdgesOfCall(fn, e)
 				r.Check(len(eo) > 0 && !ssax.ReachableFrom(fn, e, dels[0], eo, nil), "C13/R4", sprintf("node.executeOperation:%s#%d:failure-keeps-operation", ssax.CalleeObj(e).Name(), i+1), "a failed post keeps the operation pending", c.PosOf(e), "DeleteOperation reachable after a failed post")
